@@ -699,6 +699,7 @@ func registerSync() {
 	}
 	withTimer := func(m *Machine, parent *CtxV, deadline *Term) Value {
 		c := m.ctxWithCancel(parent)
+		c.deadline = deadline
 		ch := m.newChan(1)
 		ch.timer = &timerState{deadline: deadline, active: true}
 		t := &nativeFn{name: "ctx-timer", f: func(m *Machine, fr *frame, a []Value) Value {
@@ -773,6 +774,20 @@ func (m *Machine) modelMethod(recv Iface, meth *types.Func) Value {
 		}}
 	case "Deadline":
 		return &nativeFn{name: "ctx.Deadline", f: func(m *Machine, fr *frame, a []Value) Value {
+			// the earliest deadline on the way up to the root
+			var d *Term
+			for x := c; x != nil; x = x.parent {
+				if x.deadline != nil {
+					if d == nil {
+						d = x.deadline
+					} else {
+						d = tIte(tCmp("<", x.deadline, d), x.deadline, d)
+					}
+				}
+			}
+			if d != nil {
+				return tuple{TimeV{ns: d}, tTrue}
+			}
 			return tuple{TimeV{ns: mkInt(zeroTimeNs)}, tFalse}
 		}}
 	}
@@ -1713,6 +1728,8 @@ func init() {
 			if src, ok := m.side[p].(Str); ok {
 				if src.IsConc() && !strings.Contains(src.s, "{{") {
 					out = src
+				} else if !src.IsConc() && noActionPossible(src) {
+					out = src
 				} else {
 					out = strConcat(strConcat(Str{s: "<rendered:"}, src), Str{s: ">"})
 				}
@@ -2175,5 +2192,86 @@ func init() {
 			}
 		}
 		return Iface{}
+	}
+}
+
+// vSetField / vGetField: access a struct field by name through a pointer, unexported fields of
+// other packages included (library descriptors that a harness cannot build through the library's
+// own reflection-heavy constructors get an identifying marker this way). Native twins use reflect.
+func init() {
+	fieldSlot := func(p Value, name string) (*Value, types.Type) {
+		ifc, ok := p.(Iface)
+		if !ok || ifc.T == nil {
+			panic(pathAbort{"engine-error", "vSetField/vGetField need a pointer to a struct"})
+		}
+		pt, ok := ifc.T.Underlying().(*types.Pointer)
+		if !ok {
+			panic(pathAbort{"engine-error", "vSetField/vGetField need a pointer to a struct"})
+		}
+		st, ok := pt.Elem().Underlying().(*types.Struct)
+		if !ok {
+			panic(pathAbort{"engine-error", "vSetField/vGetField need a pointer to a struct"})
+		}
+		ptr := ifc.V.(*Value)
+		for i := 0; i < st.NumFields(); i++ {
+			if st.Field(i).Name() == name {
+				return &(*ptr).(structV)[i], st.Field(i).Type()
+			}
+		}
+		panic(pathAbort{"engine-error", "no field " + name})
+	}
+	harnessPrims["vSetField"] = func(m *Machine, fr *frame, fn *ssa.Function, a []Value) Value {
+		slot, ft := fieldSlot(a[0], strArg(a[1]))
+		v := a[2]
+		if _, isIface := ft.Underlying().(*types.Interface); !isIface {
+			if ifc, ok := v.(Iface); ok {
+				v = ifc.V
+			}
+		}
+		*slot = copyVal(v)
+		return nil
+	}
+	harnessPrims["vGetField"] = func(m *Machine, fr *frame, fn *ssa.Function, a []Value) Value {
+		slot, ft := fieldSlot(a[0], strArg(a[1]))
+		if _, isIface := ft.Underlying().(*types.Interface); isIface {
+			return copyVal(*slot)
+		}
+		return Iface{T: ft, V: copyVal(*slot)}
+	}
+}
+
+// noActionPossible: no two adjacent bytes of the (partly symbolic) text can both be '{' - decided
+// from constants and the tracked intervals of the symbolic bytes only (no solver call).
+func noActionPossible(src Str) bool {
+	brace := big.NewInt('{')
+	canBe := func(t *Term) bool {
+		if t.IsConst() {
+			return t.iv.Cmp(brace) == 0
+		}
+		if t.lo != nil && t.lo.Cmp(brace) > 0 {
+			return false
+		}
+		if t.hi != nil && t.hi.Cmp(brace) < 0 {
+			return false
+		}
+		return true
+	}
+	for i := 0; i+1 < src.Len(); i++ {
+		if canBe(src.At(i)) && canBe(src.At(i+1)) {
+			return false
+		}
+	}
+	return true
+}
+
+// html/template: same contract as the text/template model (text outside actions is copied as is;
+// escaping concerns action results only, which are opaque here anyway).
+func init() {
+	I := intrinsics
+	for _, n := range []string{"New"} {
+		I["html/template."+n] = I["text/template."+n]
+	}
+	for _, n := range []string{"Funcs", "Option", "Parse", "Execute"} {
+		I["(*html/template.Template)."+n] = I["(*text/template.Template)."+n]
 	}
 }
